@@ -8,6 +8,7 @@ import (
 	"strings"
 
 	admissionapi "k8s.io/pod-security-admission/admission/api"
+	"k8s.io/pod-security-admission/api"
 	"k8s.io/pod-security-admission/admission/api/load"
 	"k8s.io/pod-security-admission/admission/api/validation"
 )
@@ -279,6 +280,8 @@ type cfgOut struct {
 	Cfg    J          `json:"cfg,omitempty"`
 	Errs   [][]any    `json:"errs,omitempty"`
 	Policy any        `json:"policy"`
+	// not compared with the model: the property's own expectation for ToPolicy, computed from the stated strings
+	statedMismatch string
 }
 
 var idxRe = regexp.MustCompile(`^(.*)\[(\d+)\]$`)
@@ -317,6 +320,34 @@ func describeCfg(c *admissionapi.PodSecurityConfiguration) cfgOut {
 	}
 	if p, err := admissionapi.ToPolicy(c.Defaults); err == nil {
 		out.Policy = polJSON(p)
+		// "an accepted configuration is enforced with exactly the default policy it states": each stated string parsed on its own
+		for _, m := range []struct {
+			mode, level, version string
+			got                  api.LevelVersion
+		}{{"enforce", c.Defaults.Enforce, c.Defaults.EnforceVersion, p.Enforce}, {"audit", c.Defaults.Audit, c.Defaults.AuditVersion, p.Audit}, {"warn", c.Defaults.Warn, c.Defaults.WarnVersion, p.Warn}} {
+			l, e1 := api.ParseLevel(m.level)
+			v, e2 := api.ParseVersion(m.version)
+			if e1 != nil || e2 != nil {
+				continue
+			}
+			if m.got.Level != l || m.got.Version != v {
+				out.statedMismatch = fmt.Sprintf("%s: stated %s:%s, ToPolicy gives %s", m.mode, m.level, m.version, m.got.String())
+			}
+			// and what a controller configured with it applies in a namespace without labels / with only a level label
+			ns, errs := api.PolicyToEvaluate(map[string]string{"pod-security.kubernetes.io/" + m.mode: "baseline"}, p)
+			var gotNs api.LevelVersion
+			switch m.mode {
+			case "enforce":
+				gotNs = ns.Enforce
+			case "audit":
+				gotNs = ns.Audit
+			default:
+				gotNs = ns.Warn
+			}
+			if len(errs) == 0 && (gotNs.Level != api.LevelBaseline || gotNs.Version != v) {
+				out.statedMismatch = fmt.Sprintf("%s: stated default version %s, a namespace labelled %s=baseline is judged at %s", m.mode, m.version, m.mode, gotNs.String())
+			}
+		}
 	}
 	return out
 }
@@ -421,6 +452,9 @@ func runC17(c *Ctx) {
 			// accepted configuration enforces exactly the defaults it states
 			if len(o.goJ.Errs) == 0 && o.goJ.Policy == nil {
 				c.Violate(Finding{Desc: "configuration passes validation but ToPolicy fails", Key: "validate-topolicy", Input: in})
+			}
+			if len(o.goJ.Errs) == 0 && o.goJ.statedMismatch != "" {
+				c.Violate(Finding{Desc: "accepted configuration is not enforced with the default policy it states: " + o.goJ.statedMismatch, Key: "stated-defaults", Input: in, Go: o.goJ})
 			}
 		}
 	}
